@@ -407,3 +407,79 @@ def incidence_plane_line(ctx):
     ctx.ensure("contraction-of-the-images~image-of-the-contraction", ctx.minors_zero(v1, geo.matvec(tolist(T), v0)))
     ctx.ensure("covariant-tensor-of-the-image-line-is-p^q-of-the-image-points",
                ctx.minors_zero(tl.covariant_tensor.array, geo.line3_cov_from_points(rho_cov(T, a), rho_cov(T, b))))
+
+
+# ------------------------------------------------------------------------------------------------ bounded: dtypes and operation order
+@case("C06", "action.dtype.order.lattice", [], kind="bounded", also=("C07",), share=True,
+      functions=["geometer.transformation.TransformationTensor.inverse", "geometer.base.Tensor.__apply__", "geometer.transformation.TransformationTensor.__pow__", "geometer.curve.QuadricTensor.dual"],
+      bound="INTEGER-dtype and float transformations with |det| != 1 (scalings, shears, 6 matrices in 2D, 4 in 3D) x lattice points/lines/planes/conics: inverse round trips, t**-1, t**k (k in -6..9), "
+            "incidence and join/meet commutation; quadrics whose dual / tangency was evaluated BEFORE the transformation (cached state must not leak into the image)")
+def action_dtype_order(ctx):
+    import geometer as g
+    from geometer.transformation import Transformation, scaling, translation, rotation
+    from geometer.curve import Conic, Circle, Sphere, Quadric
+
+    mats2 = [np.array([[2, 0, 0], [0, 3, 0], [0, 0, 1]]), np.array([[2, 1, 1], [0, 3, -1], [0, 0, 1]]), np.array([[1, 2, 0], [3, 1, 4], [0, 0, 2]]),
+             np.array([[2.0, 1, 1], [0, 3, -1], [0, 0, 1]]), np.array([[1, 1, 0], [0, 1, 0], [0, 0, 1]]), np.array([[0, -2, 1], [2, 0, 3], [0, 0, 1]])]
+    mats3 = [np.diag([2, 3, 5, 1]), np.array([[2, 1, 0, 1], [0, 3, 1, -1], [1, 0, 2, 2], [0, 0, 0, 1]]), np.array([[1, 0, 0, 2], [0, 1, 0, -3], [0, 0, 1, 1], [0, 0, 0, 2]]),
+             np.array([[2.0, 1, 0, 1], [0, 3, 1, -1], [1, 0, 2, 2], [0, 0, 0, 1]])]
+    pts2 = [(1, 2), (-3, 1), (0, 0), (2, -5), (4, 4)]
+    pts3 = [(1, 2, 3), (-1, 0, 2), (0, 0, 0), (2, -2, 1), (3, 1, -1)]
+    for m in mats2 + mats3:
+        dim = m.shape[0] - 1
+        t = Transformation(m)
+        w = dict(matrix=m.tolist(), dtype=str(m.dtype))
+        pts = [g.Point(*p) for p in (pts2 if dim == 2 else pts3)]
+        inv = t.inverse()
+        ok = np.allclose(np.asarray(inv.array, dtype=float) @ np.asarray(m, dtype=float), np.eye(dim + 1), atol=1e-9)
+        ctx.ensure("inverse-is-the-matrix-inverse", ok, witness=dict(w, got=np.asarray(inv.array).tolist()))
+        ctx.ensure("inverse-round-trip-on-points", all(inv * (t * p) == p and t * (inv * p) == p for p in pts), witness=w)
+        ctx.ensure("t**-1==inverse", (t ** -1) == inv, witness=w)
+        # powers against the matrix power (projectively)
+        for k in range(-6, 10):
+            want = np.linalg.matrix_power(np.asarray(m, dtype=float), k)
+            got = np.asarray((t ** k).array, dtype=float)
+            a, b = got.reshape(-1), want.reshape(-1)
+            ok = np.linalg.matrix_rank(np.array([a / np.abs(a).max(), b / np.abs(b).max()]), tol=1e-9) == 1
+            ctx.ensure("t**k==matrix-power", ok, witness=dict(w, k=k))
+        # hyperplanes and incidence
+        if dim == 2:
+            for a, b in itertools.combinations(pts, 2):
+                l = g.join(a, b)
+                tl = t * l
+                ctx.ensure("incidence-preserved(join)", bool(tl.contains(t * a)) and bool(tl.contains(t * b)) and tl == g.join(t * a, t * b), witness=dict(w, points=(a.array.tolist(), b.array.tolist())))
+            l1, l2 = g.Line(1, 2, -3), g.Line(2, -1, 4)
+            ctx.ensure("meet-commutes", t * g.meet(l1, l2) == g.meet(t * l1, t * l2), witness=w)
+            c = Circle(g.Point(1, -1), 2)
+            on = g.Point(3, -1)
+            ctx.ensure("point-stays-on-the-conic", bool((t * c).contains(t * on)), witness=w)
+        else:
+            for a, b, c_ in itertools.combinations(pts, 3):
+                try:
+                    e = g.join(a, b, c_)
+                except Exception:
+                    continue
+                te = t * e
+                ctx.ensure("incidence-preserved(join)", all(bool(te.contains(t * x)) for x in (a, b, c_)) and te == g.join(t * a, t * b, t * c_), witness=w)
+            l = g.join(pts[0], pts[1])
+            ctx.ensure("3d-line-image-contains-the-image-points", bool((t * l).contains(t * pts[0])) and bool((t * l).contains(t * pts[1])) and (t * l) == g.join(t * pts[0], t * pts[1]), witness=w)
+    # operation order: state computed on the original must not leak into the image
+    for t in [translation(2, -1), rotation(0.7) * translation(1, 1), Transformation(np.array([[2.0, 1, 1], [0, 3, -1], [0, 0, 1]]))]:
+        for q, on, tangent in [(Circle(g.Point(0, 0), 2), g.Point(2, 0), g.Line(1, 0, -2)), (Conic(np.diag([1.0, 4.0, -4.0])), g.Point(2, 0), g.Line(1, 0, -2))]:
+            d0 = q.dual
+            t0 = bool(q.is_tangent(tangent))
+            tq = t * q
+            w = dict(transformation=np.asarray(t.array).round(4).tolist(), quadric=type(q).__name__)
+            ok = t0 and bool(tq.contains(t * on)) and bool(tq.is_tangent(t * tangent)) and not bool(tq.is_tangent(tangent) and not (t * tangent == tangent)) and tq.dual == (t * d0)
+            ctx.ensure("dual/tangency-evaluated-before-the-transformation-do-not-leak", ok, witness=w)
+    s = Sphere(g.Point(0, 0, 0), 2)
+    e = g.Plane(1, 0, 0, -2)
+    _ = s.dual, s.is_tangent(e)
+    t = translation(1, 2, 3)
+    ts = t * s
+    ctx.ensure("dual/tangency-evaluated-before-the-transformation-do-not-leak", bool(ts.is_tangent(t * e)) and not bool(ts.is_tangent(e)) and bool(ts.contains(t * g.Point(2, 0, 0))), witness="sphere")
+    p = g.Point(1, 2)
+    l = g.Line(1, 1, -3)
+    _ = l.contains(p), l.base_point, l.direction, l.basis_matrix
+    t = translation(5, 5)
+    ctx.ensure("line-queried-before-the-transformation", bool((t * l).contains(t * p)) and not bool((t * l).contains(p)) and (t * l).base_point != l.base_point, witness="2d line")
